@@ -1,5 +1,6 @@
 import MsiProofs.Props.C08
 import MsiProofs.Lemmas.RefineExact
+import MsiProofs.Lemmas.GlobalInv
 /-
 C08, as an invariant of the operations — reference counts stay exact.  `AccountedWith slack p cells`:
 for every pool entry, (number of cells referring to it) + slack = its reference count.  Insert and
@@ -24,5 +25,16 @@ def exact_iff := @MsiProofs.RefineExact.exact_iff
 example : AccountedWith (fun _ => 0) (Pool.new 0) [] := by
   intro r _
   simp [Pool.new, Pool.refcount]
+
+
+/-! ### whole packages, whole histories -/
+/-- the package invariant: every table loads, table streams are pairwise distinct, and the
+reference counts equal the references held by the cells of ALL tables plus a fixed slack -/
+abbrev Inv := MsiProofs.GlobalInv.Inv
+/-- **every history of inserts and deletes, on any tables, accepted or refused, keeps reference
+counting exact over the whole package** (induction over the request list, no bound) -/
+def history_inv := @MsiProofs.GlobalInv.history_inv
+def insert_inv := @MsiProofs.GlobalInv.insert_inv
+def delete_inv := @MsiProofs.GlobalInv.delete_inv
 
 end MsiProofs.C08
